@@ -1931,6 +1931,39 @@ class C16(Prop):
                 c.meta = {'key': key, 'pos': 'coq-dot-path', 'escaped': dot != kb, 'keyq': True}
                 want[cid] = 'ok:[n(1,0)]' if present else 'mne:' + hx(b'.' + dot)
                 cases.append(c)
+        # chains of name steps in mixed spellings through nested objects (C16_member_addressable_at_depth): the text
+        # sent is Coq's chain_path (confirmed by the driver), the expected value comes from following the keys
+        for i in range(n // 6):
+            depth = r.randint(2, 4)
+            keys = [gen_key(r) for _ in range(depth)]
+            present = r.random() < 0.8
+            miss_at = r.randrange(depth)
+            inner = ('n', 1.0)
+            for lvl in range(depth - 1, -1, -1):
+                k = keys[lvl]
+                sibs = [(sx.encode('utf-8'), ('n', float(j + 2))) for j, sx in enumerate(near_misses(r, k))]
+                members = sibs + ([(k.encode('utf-8'), inner)] if (present or lvl != miss_at) else [(b'zz9', inner)])
+                r.shuffle(members)
+                inner = ('o', members)
+            text, spec, last = '$', [], ''
+            for k in keys:
+                kb = k.encode('utf-8')
+                dot = gens.esc_dot(kb)
+                style = r.choice("'\"." if dot is not None else "'\"")
+                if style == '.':
+                    last = '.' + dot.decode('utf-8')
+                    spec.append((0, [ord(ch) for ch in k]))
+                else:
+                    body = ''.join('\\' + ch if ch in (style, '\\') else ('\\u%04x' % ord(ch) if ord(ch) < 0x20 else ch) for ch in k)
+                    last = '[' + style + body + style + ']'
+                    spec.append((ord(style), [ord(ch) for ch in k]))
+                text += last
+            cid = 'c%d' % i
+            c = Case(cid, text.encode('utf-8'), [inner])
+            c.keyc = spec
+            c.meta = {'key': keys, 'pos': 'coq-chain-path', 'escaped': True, 'keyq': True}
+            want[cid] = 'ok:[n(1,0)]' if present else '*err'
+            cases.append(c)
         # two members addressed from the root on both sides of a comparison: distinct keys must stay distinct
         for i in range(n // 8):
             key = gen_key(r)
@@ -1970,6 +2003,9 @@ class C16(Prop):
                 if a.startswith('ok:'):
                     res.violation('concrete', sig_of(c, 'keys-confused'), 'the comparison %r holds although the two members differ' % (c.path,), c,
                                   expected='no match', observed=a)
+            elif c.id in want and want[c.id] == '*err':
+                if a.startswith('ok:'):
+                    res.violation('concrete', sig_of(c, 'key-not-addressed'), 'the chain %r selects something although a name is missing on the way' % (c.path,), c, expected='an error', observed=a)
             elif c.id in want and a != want[c.id]:
                 res.violation('concrete', sig_of(c, 'key-not-addressed'),
                               'the selector %r does not return exactly the member named %r' % (c.path, c.meta.get('key')), c,
